@@ -250,7 +250,7 @@ def _parse_out_default_and_doc(
                 "str": str,
             }[typ](lit)
         )
-    elif default.isdecimal():
+    elif (default[1:] if default[:1] in frozenset(("-", "+")) else default).isdecimal():
         default = int(default)
     elif default in frozenset(("True", "False")):
         default = literal_eval(default)
